@@ -46,39 +46,39 @@ type World struct {
 }
 
 type Clause struct {
-	Kind  string // requires ensures invariant decreases assert
-	Tag   string
-	Loop  int
-	Text  string
-	Line  int
-	File  string
-	Expr  ast.Expr
-	Info  *types.Info
-	Props []string
-	Slow  bool
+	Kind   string // requires ensures invariant decreases assert
+	Tag    string
+	Loop   int
+	Text   string
+	Line   int
+	File   string
+	Expr   ast.Expr
+	Info   *types.Info
+	Props  []string
+	Slow   bool
 	Callee string
 }
 
 type Contract struct {
-	Pkg      *packages.Package
-	FuncName string // as written: "(*Message).DecodeFromBytes"
-	Fn       *ssa.Function
-	Props    []string
-	Requires []*Clause
-	Ensures  []*Clause
-	Invs     []*Clause
-	Decr     []*Clause
-	Assigns  []*Clause // each is a location expression (or "nothing")
+	Pkg        *packages.Package
+	FuncName   string // as written: "(*Message).DecodeFromBytes"
+	Fn         *ssa.Function
+	Props      []string
+	Requires   []*Clause
+	Ensures    []*Clause
+	Invs       []*Clause
+	Decr       []*Clause
+	Assigns    []*Clause // each is a location expression (or "nothing")
 	AssignsAny bool
-	Config   []*Clause
-	Mode     string // "", "inline", "trusted", "pure", "lemma"
-	Locals   map[string]string
-	File     string
-	Line     int
-	Options  map[string]bool
-	AtCalls  []*Clause
-	Splits   []*Clause // case-split predicates (over the entry state): every obligation is proved once per case
-	Nocheck  bool // contract is assumed at call sites but the body is not verified here (trusted)
+	Config     []*Clause
+	Mode       string // "", "inline", "trusted", "pure", "lemma"
+	Locals     map[string]string
+	File       string
+	Line       int
+	Options    map[string]bool
+	AtCalls    []*Clause
+	Splits     []*Clause // case-split predicates (over the entry state): every obligation is proved once per case
+	Nocheck    bool      // contract is assumed at call sites but the body is not verified here (trusted)
 	NoOverread bool
 }
 
@@ -115,6 +115,9 @@ func ite[T any](c bool, a, b T) T {
 
 // res stands for the i-th result of the function under contract.
 func res[T any](i int) T { var z T; return z }
+
+// arg[T](k): in an at-call clause, the k-th argument of the call (receiver first for method calls).
+func arg[T any](i int) T { var z T; return z }
 
 // quantifier variables
 var qi, qj, qk int
@@ -159,6 +162,9 @@ func bufValid(b any) bool { return b != nil }
 // bufSmall(b): bufValid and, additionally, capacity and growth increments below 2^26 bytes
 // (the precondition of every serialiser: an assumption about memory size, not about the code).
 func bufSmall(b any) bool { return b != nil }
+
+// holdsFunc(x, "pkg.Func"): x is (an interface wrapping a function-typed value equal to) that function.
+func holdsFunc(x any, name string) bool { return x != nil }
 
 // sends(): ghost counter of datagrams handed to transport.Send so far.
 func sends() int { return 0 }
@@ -456,6 +462,30 @@ func (w *World) parseContracts(p *packages.Package, file, src string) error {
 func (w *World) findFunc(pkgPath, name string) *ssa.Function {
 	sp := w.SSAPkgs[pkgPath]
 	if sp == nil {
+		return nil
+	}
+	// "init@file.go#k": the k-th (1-based, source order) function literal of that file inside the
+	// package initialiser - independent of how many literals other files contribute
+	if k := strings.Index(name, "@"); k >= 0 {
+		parent := sp.Func(name[:k])
+		rest := name[k+1:]
+		h := strings.Index(rest, "#")
+		if parent == nil || h < 0 {
+			return nil
+		}
+		file, idxs := rest[:h], rest[h+1:]
+		var idx int
+		fmt.Sscanf(idxs, "%d", &idx)
+		var cands []*ssa.Function
+		for _, a := range parent.AnonFuncs {
+			if a.Syntax() != nil && filepath.Base(w.Fset.Position(a.Syntax().Pos()).Filename) == file {
+				cands = append(cands, a)
+			}
+		}
+		sort.Slice(cands, func(i, j int) bool { return cands[i].Syntax().Pos() < cands[j].Syntax().Pos() })
+		if idx >= 1 && idx <= len(cands) {
+			return cands[idx-1]
+		}
 		return nil
 	}
 	base := name
